@@ -24,6 +24,14 @@ MODDIR=$WT; TESTPKG=./$PKG/
 if [[ $PKG == cache/* || $PKG == cache ]]; then MODDIR=$WT/cache; TESTPKG=./${PKG#cache/}/; [ "$PKG" == cache ] && TESTPKG=./; fi
 [ "$PKG" == "." ] && TESTPKG=.
 SKIP='TestHandleHeaders|TestNeutrinoImportThenP2PSync|TestNeutrinoSyncWithHeadersImport|TestNeutrinoSyncWithoutHeadersImport|TestWorkManagerProgressTimeoutFailuresDontReset'
+# RECHECK=1: a change already confirmed (stored with its confirmation) is only
+# re-run against the checks.
+if [ -n "${RECHECK:-}" ] && grep -q '"confirmed"' /verif/seeded/$ID/meta.json 2>/dev/null; then
+  git -C $WT apply $SRC/patch.diff 2>/dev/null || git -C $WT apply --3way $SRC/patch.diff || { echo "SEED $ID: patch does not apply"; exit 3; }
+  ( cd $WT && go1.26.8 build ./... && cd cache && go1.26.8 build ./... ) > /tmp/sv-$ID.build.log 2>&1 || { echo "SEED $ID: mutant does not build"; exit 3; }
+  SKIPCONFIRM=1
+fi
+if [ -z "${SKIPCONFIRM:-}" ]; then
 cp $SRC/demo_test.go $WT/$PKG/zz_seeded_demo_test.go
 ( cd $MODDIR && timeout 600 go1.26.8 test $RACE -vet=off -count=1 -run "$RX" $TESTPKG ) > /tmp/sv-$ID.clean.log 2>&1; CLEAN=$?
 git -C $WT apply $SRC/patch.diff 2>/dev/null || git -C $WT apply --3way $SRC/patch.diff || { echo "SEED $ID: patch does not apply"; exit 3; }
@@ -34,6 +42,7 @@ rm $WT/$PKG/zz_seeded_demo_test.go
 echo "SEED $ID: demo clean rc=$CLEAN (want 0), demo mutant rc=$MUT (want !=0), suite on mutant rc=$SUITE (want 0)"
 if [ $CLEAN -ne 0 ] || [ $MUT -eq 0 ] || [ $SUITE -ne 0 ]; then
   echo "SEED $ID: NOT CONFIRMED"; grep -h "^--- FAIL\|^FAIL\|panic:" /tmp/sv-$ID.suite.log /tmp/sv-$ID.clean.log | head -5; exit 4
+fi
 fi
 mkdir -p /verif/seeded/$ID
 [ "$SRC" != "/verif/seeded/$ID" ] && cp $SRC/patch.diff $SRC/demo_test.go $SRC/meta.json /verif/seeded/$ID/
